@@ -156,8 +156,7 @@ def d_expr(e):
     if isinstance(e, sympy.Rational):
         return f"(Num {cq(Fraction(int(e.p), int(e.q)))})"
     if isinstance(e, sympy.Float):
-        p, q = to_rational(e._mpf_)
-        return f"(Num {cq(Fraction(int(p), int(q)))})"
+        return f"(Num {cq(float_value(e))})"
     if isinstance(e, sympy.Add):
         return f"(Expr.Add {clist(e.args, d_expr)})"  # List.Add shadows the constructor in case files
     if isinstance(e, sympy.Mul):
@@ -274,12 +273,27 @@ def interp(e):
     return e.func(*args)
 
 
+def float_value(f):
+    """The rational a sympy Float stands for.  Generated floats are small dyadics and are taken exactly.  sympy itself
+    creates non-dyadic Floats when it factors a float out of a power ((x - 2.5)**2 -> 6.25*(0.4*x - 1)**2): such a
+    Float is the correctly rounded quotient of two generated numbers, so a Float with a large denominator that lies
+    within 2**-48 (relative) of a fraction with denominator <= 10**4 is read as that fraction."""
+    p, q = to_rational(f._mpf_)
+    exact = Fraction(int(p), int(q))
+    if exact.denominator <= 2 ** 12:
+        return exact
+    cand = exact.limit_denominator(10 ** 4)
+    if cand != 0 and abs(cand - exact) <= abs(exact) / 2 ** 48:
+        return cand
+    return exact
+
+
 def rationalize(e):
     """Floats -> the exact rationals they stand for (1.0 and 1 are the same value; sympy keeps them apart)"""
     fl = e.atoms(sympy.Float)
     if not fl:
         return e
-    return e.xreplace({f: sympy.Rational(*[int(t) for t in to_rational(f._mpf_)]) for f in fl})
+    return e.xreplace({f: sympy.Rational(float_value(f).numerator, float_value(f).denominator) for f in fl})
 
 
 def numeric(M, env):
